@@ -210,6 +210,18 @@ class Taint:
                 d = dotted(x.func.value)
                 if d:
                     out.add(d)
+                # table[key].append(v) / table.setdefault(key, []).append(v): the *values* of
+                # the table are sequences built in iteration order
+                inner = x.func.value
+                if x.func.attr != "setdefault":
+                    base = None
+                    if isinstance(inner, ast.Subscript):
+                        base = dotted(inner.value)
+                    elif isinstance(inner, ast.Call) and isinstance(inner.func, ast.Attribute) \
+                            and inner.func.attr in ("setdefault", "get"):
+                        base = dotted(inner.func.value)
+                    if base:
+                        out.add(base + "@values")
             if isinstance(x, ast.Assign):
                 for t in x.targets:
                     if isinstance(t, ast.Subscript):
@@ -272,6 +284,9 @@ class Taint:
                 return self.is_tainted(e.value, f, tainted)
             if isinstance(e.value, ast.Attribute) and e.value.attr in NESTED_UNORDERED_FIELDS:
                 return True
+            dv = dotted(e.value)
+            if dv and dv + "@values" in tainted:
+                return True
             return False
         if isinstance(e, ast.JoinedStr):
             return any(isinstance(v, ast.FormattedValue) and self.is_tainted(v.value, f, tainted)
@@ -297,6 +312,9 @@ class Taint:
                     return self.is_tainted(fn.value, f, tainted)
                 if fn.attr in ("get", "setdefault", "pop") and isinstance(fn.value, ast.Attribute) \
                         and fn.value.attr in NESTED_UNORDERED_FIELDS:
+                    return True
+                if fn.attr in ("get", "setdefault", "pop") and dotted(fn.value) \
+                        and dotted(fn.value) + "@values" in tainted:
                     return True
                 if fn.attr == "join":
                     return any(self.is_tainted(a, f, tainted) for a in e.args)
